@@ -183,6 +183,7 @@ impl Value {
                     }
                     (Operator::Not, css::Value::True) => css::Value::False,
                     (Operator::Not, css::Value::False) => css::Value::True,
+                    (Operator::Not, css::Value::Null) => css::Value::True,
                     (Operator::Minus, css::Value::Numeric(v, _)) => {
                         css::Value::Numeric(-&v, true)
                     }
